@@ -46,7 +46,17 @@ func (ig *ingest) gates(e *Effect) {
 		ev.Require("G2", props("C01", "C03"), "commit only under a quorum of stored COMMIT senders for exactly (h, v, hash)", "",
 			k.Quorum(Call("interfaces.GetCommitSendersIds", k.ST, h, v, x)), Truth(Ext(1, Call("interfaces.GetCommitMessages", k.ST, h, v, x))))
 		ev.Verdict("G4.block", props("C01", "C03", "C04"), "the block handed to the commit callback is the block of the stored proposal for (h,v)", "", ev.Same(blk, Field(ppm, "block")), "block argument is "+PP(blk))
-		ev.Require("G3.set", props("C01", "C13"), "the once-per-term commit latch is set (to the delivered block) before the callback runs", "", Eq(Field(k.TIC, "committedBlock"), blk))
+		latchMissing := false
+		for _, f := range k.MissingLatch {
+			if f == "committedBlock" {
+				latchMissing = true
+			}
+		}
+		if latchMissing {
+			ev.Verdict("G3.set", props("C01", "C13"), "the once-per-term commit latch is set (to the delivered block) before the callback runs", "", false, "the term has no commit latch field (committedBlock): nothing makes the commit callback once-per-term")
+		} else {
+			ev.Require("G3.set", props("C01", "C13"), "the once-per-term commit latch is set (to the delivered block) before the callback runs", "", Eq(Field(k.TIC, "committedBlock"), blk))
+		}
 		ig.ctxProvenance(ev, "K6.commit", ctx, h, Const("18446744073709551615"))
 	case e.Kind == "store" && e.Name == "termincommittee.TermInCommittee.committedBlock":
 		ev := a.NewEval(e, ig.r)
@@ -102,6 +112,15 @@ func (ig *ingest) gates(e *Effect) {
 			S := Call("protocol.Sender", H.Args[0])
 			ev.Require("S1.guards", props("C10", "C04", "C01"), "a PREPARE is signed only for a proposal whose signature verified, whose sender leads its view, whose view is the current view, and while no proposal is stored for (h,v)", "",
 				k.Verify(H, S), Eq(mid(S), k.LeaderOf(vw(H))), Eq(vw(H), k.SView), NotA(Truth(Ext(1, Call("interfaces.GetPreprepareMessage", k.ST, ht(H), vw(H))))))
+		}
+
+	// ------------------------------------------------ own PREPARE is in the log before the prepared test (L5.own)
+	case e.Kind == "call" && e.Name == "interfaces.GetPrepareSendersIds" && len(e.Args) == 4:
+		ev := a.NewEval(e, ig.r)
+		h, v, x := ev.Arg(1), ev.Arg(2), ev.Arg(3)
+		own := Call("messagesfactory.CreatePrepareMessage", k.MF, h, v, x)
+		if ev.Has(Done(own)) != nil {
+			ev.Require("L5.own", props("C05", "C10"), "when the node has signed its own PREPARE for (h, v, hash) it is stored before the prepared quorum for that key is evaluated (otherwise its own weight is never counted and a timely view cannot complete)", "", Done(Call("interfaces.StorePrepare", k.ST, own)))
 		}
 
 	// ------------------------------------------------ sends (S1.store-before-send, K8)
@@ -298,10 +317,10 @@ func (ig *ingest) voteCreation(e *Effect) {
 	isPrep := []*Atom{Ne(pl, tNil), Truth(Field(pl, "isPreparedLocally"))}
 	switch {
 	case ev.Has(isPrep[0]) != nil && ev.Has(isPrep[1]) != nil:
-		ev.Verdict("LK1", props("C09", "C11"), "a prepared node's vote carries ExtractPreparedMessages(height, preparedLocally.latestView, storage, the term's committee)", "prepared", ev.Same(prepared, want), "prepared argument is "+PP(prepared))
+		ev.Verdict("LK1", props("C09", "C11", "C01"), "a prepared node's vote carries ExtractPreparedMessages(height, preparedLocally.latestView, storage, the term's committee)", "prepared", ev.Same(prepared, want), "prepared argument is "+PP(prepared))
 	case ev.Has(Eq(pl, tNil)) != nil || ev.Has(NotA(Truth(Field(pl, "isPreparedLocally")))) != nil:
-		ev.Verdict("LK1", props("C09", "C11"), "an unprepared node's vote carries no prepared messages", "unprepared", prepared.Key() == tNil.Key(), "prepared argument is "+PP(prepared))
+		ev.Verdict("LK1", props("C09", "C11", "C01"), "an unprepared node's vote carries no prepared messages", "unprepared", prepared.Key() == tNil.Key(), "prepared argument is "+PP(prepared))
 	default:
-		ev.Verdict("LK1.split", props("C09"), "vote creation splits on whether the node is prepared", "", false, "preparedness is not decided on this path")
+		ev.Verdict("LK1.split", props("C09", "C01"), "vote creation splits on whether the node is prepared", "", false, "preparedness is not decided on this path")
 	}
 }
